@@ -268,6 +268,16 @@ theorem splitAt_refines_spec {K : Type} [Field K] [LinearOrder K] [IsStrictOrder
       rw [htot'] at h1
       linarith
 
+/-- the cut parameters the Bezier cases hand to the cutting loop (`monoClamp`, deac3eb) are non-decreasing
+from 0, whatever the inverse arc length returns: with `splitAt_pieces_concat_quad/_cube` every piece is
+the restriction of the segment to an interval `[t_k, t_(k+1)]` with `t_k ≤ t_(k+1)` - no piece runs
+backwards -/
+theorem splitAt_bezier_cuts_monotone {K : Type} [Field K] [LinearOrder K] [IsStrictOrderedRing K]
+    (inv : List K) :
+    (monoClamp (fun a b => decide (a < b)) 0 inv).Pairwise (· ≤ ·) ∧
+      ∀ t ∈ monoClamp (fun a b => decide (a < b)) 0 inv, 0 ≤ t :=
+  monoClamp_mono 0 inv
+
 /-- a position at the head of the (sorted) list that is not beyond the current position - a negative
 position, or a second 0 - is never selected and, the positions being handled in order, suppresses
 every later cut: such requests are outside the domain of the property (positions in [0, Length]) -/
